@@ -128,9 +128,24 @@ enum Prefix {
     /// Open, then an unambiguous 5,0 (baseline `b`), then an unambiguous 6,0 that has the heading (less its
     /// last bit, which is the 5,0 track status) and the IAS of the dual-layout register that follows
     After50And60 { b: u8, hdg_ias_of: u64 },
+    /// Open; the swept reply itself reports 38000 ft instead of 7000 ft
+    OpenHigh,
+    /// Open, then an ADS-B velocity squitter tuned to the register `of` that follows (a register valid in both
+    /// layouts): mode 0 - track equal to its 6,0 heading, speed 200 kt above its 5,0 ground speed;
+    /// mode 1 - speed equal to Mach x 600 of its 6,0 reading, track equal to its 5,0 track
+    AfterTunedTc19 { mode: u8, of: u64 },
 }
 
 fn parse_prefix(s: &str) -> Prefix {
+    if s == "OpenHigh" {
+        return Prefix::OpenHigh;
+    }
+    if let Some(rest) = s.strip_prefix("AfterTunedTc19") {
+        let n: Vec<u64> = rest.split(|c: char| !c.is_ascii_digit()).filter(|x| !x.is_empty()).filter_map(|x| x.parse().ok()).collect();
+        if n.len() == 2 {
+            return Prefix::AfterTunedTc19 { mode: n[0] as u8, of: n[1] };
+        }
+    }
     if let Some(rest) = s.strip_prefix("After50And60") {
         let n: Vec<u64> = rest.split(|c: char| !c.is_ascii_digit()).filter(|x| !x.is_empty()).filter_map(|x| x.parse().ok()).collect();
         if n.len() == 2 {
@@ -167,6 +182,23 @@ fn prefix_lines(p: Prefix, addr: u32) -> Vec<Vec<u8>> {
             frames::df17(5, addr, frames::me_velocity(&frames::Vel { st: 1, dew: 0, vew: 451, dns: 0, vns: 1, vr: 5, ..Default::default() })).hex().into_bytes(),
             frames::df20(addr, alt, 0x10_0000_0010_0000).hex().into_bytes(),
         ],
+        Prefix::OpenHigh => vec![frames::df11(5, addr, 0).hex().into_bytes(), frames::df20(addr, alt, frames::mb_bds17(ALL_CAPS)).hex().into_bytes()],
+        Prefix::AfterTunedTc19 { mode, of } => {
+            let g = |s: u32, l: u32| frames::me_get(of, s, l) as f64;
+            // readings of `of` in the two layouts
+            let trk5 = { let v = g(14, 10) * 90.0 / 512.0; if g(13, 1) == 1.0 { v - 180.0 } else { v } }.rem_euclid(360.0);
+            let gs5 = g(25, 10) * 2.0;
+            let hdg6 = { let v = g(3, 10) * 90.0 / 512.0; if g(2, 1) == 1.0 { v - 180.0 } else { v } }.rem_euclid(360.0);
+            let mach6 = g(25, 10) * 2.048 / 512.0;
+            let (track, speed) = if mode == 0 { (hdg6, (gs5 + 200.0).min(1000.0)) } else { (trk5, (mach6 * 600.0).clamp(1.0, 1000.0)) };
+            let (e, n) = (speed * track.to_radians().sin(), speed * track.to_radians().cos());
+            let v = frames::Vel { st: 1, dew: (e < 0.0) as u32, vew: e.abs().round() as u32 + 1, dns: (n < 0.0) as u32, vns: n.abs().round() as u32 + 1, vr: 5, ..Default::default() };
+            vec![
+                frames::df11(5, addr, 0).hex().into_bytes(),
+                frames::df20(addr, alt, frames::mb_bds17(ALL_CAPS)).hex().into_bytes(),
+                frames::df17(5, addr, frames::me_velocity(&v)).hex().into_bytes(),
+            ]
+        }
         Prefix::After50And60 { b, hdg_ias_of } => {
             // the 6,0 "before": same bits 1-23 (heading, IAS) as the register that follows, heading LSB (= the 5,0
             // track status bit 12) cleared, and the Mach / rate fields of a plain descent
@@ -358,7 +390,17 @@ fn judge_mb(ctx: &mut Ctx, cfg: &Cfg, relaxed: bool, prefix: Prefix, df: u32, mb
 }
 
 fn mb_frame(df: u32, addr: u32, mb: u64) -> frames::Frame {
-    if df == 20 { frames::df20(addr, frames::ac13_for_alt(7000), mb) } else { frames::df21(addr, frames::id13_for_squawk(2101), mb) }
+    mb_frame_at(df, addr, mb, 7000)
+}
+fn mb_frame_at(df: u32, addr: u32, mb: u64, alt_ft: i32) -> frames::Frame {
+    if df == 20 { frames::df20(addr, frames::ac13_for_alt(alt_ft), mb) } else { frames::df21(addr, frames::id13_for_squawk(2101), mb) }
+}
+/// the altitude the swept reply itself reports (the register decoding does not depend on it)
+fn reply_alt(p: Prefix) -> i32 {
+    match p {
+        Prefix::OpenHigh => 38000,
+        _ => 7000,
+    }
 }
 
 fn run_sweep(ctx: &mut Ctx, cfg: &Cfg, relaxed: bool, prefix: Prefix, df: u32, mbs: &[u64]) {
@@ -370,7 +412,7 @@ fn run_sweep(ctx: &mut Ctx, cfg: &Cfg, relaxed: bool, prefix: Prefix, df: u32, m
             .map(|(i, mb)| {
                 let a = BASE + i as u32;
                 let mut l = prefix_lines(prefix, a);
-                l.push(mb_frame(df, a, *mb).hex().into_bytes());
+                l.push(mb_frame_at(df, a, *mb, reply_alt(prefix)).hex().into_bytes());
                 Vector { addr: a, lines: l }
             })
             .collect();
@@ -440,6 +482,36 @@ fn run(ctx: &mut Ctx) {
             }
         }
     }
+    // the reply itself reports a high altitude (the register decoding does not depend on the AC field of the reply)
+    for opts in [&[][..], &["-U"][..]] {
+        let cfg = Cfg::new(opts);
+        let sub: Vec<u64> = mbs.iter().copied().enumerate().filter(|(i, _)| thorough || i % 3 == 0).map(|(_, m)| m).collect();
+        for block in sub.chunks(8192) {
+            job += 1;
+            if !ctx.mine(job) {
+                continue;
+            }
+            ctx.count("sweep:reply-at-38000ft");
+            run_sweep(ctx, &cfg, false, Prefix::OpenHigh, 20, block);
+        }
+    }
+    // an ADS-B velocity squitter tuned to the dual-layout register that follows: 5,0 keeps its precedence
+    for opts in [&[][..], &["-U"][..], &["-R"][..]] {
+        let cfg = Cfg::new(opts);
+        for (k, d) in dual_layout_mbs().into_iter().enumerate() {
+            if !thorough && k % 5 != 0 {
+                continue;
+            }
+            job += 1;
+            if !ctx.mine(job) {
+                continue;
+            }
+            for mode in 0..2u8 {
+                ctx.count("sweep:dual-layout after a tuned velocity squitter");
+                run_sweep(ctx, &cfg, opts.contains(&"-R"), Prefix::AfterTunedTc19 { mode, of: d }, 20, &[d]);
+            }
+        }
+    }
     // a register valid in both layouts after the row has seen an unambiguous 5,0 and an unambiguous 6,0 with
     // nearly the same heading and IAS (5,0 still has precedence, whatever the row holds)
     for opts in [&[][..], &["-U"][..]] {
@@ -477,7 +549,7 @@ fn replay(ctx: &mut Ctx, case: &Value) {
         let relaxed = o.contains(&"-R");
         let pre = run_vectors(&cfg, &[Vector { addr, lines: prefix_lines(prefix, addr) }]);
         let mut l = prefix_lines(prefix, addr);
-        l.push(mb_frame(df, addr, mb).hex().into_bytes());
+        l.push(mb_frame_at(df, addr, mb, reply_alt(prefix)).hex().into_bytes());
         crate::run::say(&format!("lines {:?} cfg [{}]", l.iter().map(|x| String::from_utf8_lossy(x).into_owned()).collect::<Vec<_>>(), cfg.label()));
         let post = run_vectors(&cfg, &[Vector { addr, lines: l }]);
         if let (Some(a), Some(b)) = (pre[0].row(), post[0].row()) {
